@@ -47,6 +47,12 @@ fn main() {
         pool_cmd(args.get(2).map(|s| s.as_str()));
         return;
     }
+    let opt = |name: &str| args.iter().position(|a| a == name).and_then(|p| args.get(p + 1)).cloned();
+    if cmd == "c04-emit" {
+        let out = opt("--out").unwrap_or_else(|| usage());
+        let upto: usize = opt("--upto").and_then(|s| s.parse().ok()).unwrap_or(usize::MAX);
+        std::process::exit(checks::c04::emit(tier, &out, upto));
+    }
     if let Some(file) = replay {
         let text = std::fs::read_to_string(&file).expect("cannot read replay file");
         let art: Value = serde_json::from_str(&text).expect("replay file is not JSON");
